@@ -2,7 +2,8 @@
    patterns (gen/FurlGen.v). *)
 From Coq Require Import ZArith NArith List String Bool Lia.
 Import ListNotations.
-Require Import Verif.lib.PyLite Verif.lib.Regex Verif.lib.RegexProofs Verif.gen.FurlGen Verif.lib.Furl.
+Require Import Verif.lib.PyLite Verif.lib.Regex Verif.lib.RegexProofs Verif.gen.FurlGen Verif.lib.Utf8 Verif.lib.Furl.
+Require Import Verif.lib.Connector Verif.lib.ConnectorProofs.
 Local Open Scope Z_scope.
 
 (* ================================================================== 1. time *)
@@ -81,7 +82,6 @@ Proof.
   intros s. apply re_steps_bounded. vm_compute. reflexivity.
 Qed.
 
-Definition pb_repeat (k : nat) : list Z := List.concat (repeat ENC_PREFIX k).
 (* known finding oracle/furl-quadratic, in the model: steps quadruple when the input doubles *)
 Example furl_quadratic_witness :
   linear_bound AUTH_STURDYREF_RE AUTH_STURDYREF_RE_method = None /\
@@ -266,30 +266,165 @@ Qed.
 
 Definition endpoint_or_invalid (r : res endpoint) : Prop := (exists e, r = Ok e) \/ r = Exc "InvalidHintError".
 
-Lemma handler_total nonpublic kd hint : endpoint_or_invalid (hint_to_endpoint nonpublic kd hint).
+(* what a registered handler must satisfy for the classification to end in an endpoint or InvalidHintError:
+   foolscap's tcp and tor handlers always do; the i2p handler does unless it was given a default port= and the
+   code leaves it in the keyword arguments (I2P_POPS_PORT = false); a third-party plugin must do so itself *)
+Definition handler_ok (pops : bool) (kd : hkind) : Prop :=
+  match kd with
+  | KI2p (Some _) => pops = true
+  | KPlugin f => forall h, endpoint_or_invalid (f h)
+  | _ => True
+  end.
+
+(* every outcome of the i2p handler: an endpoint, InvalidHintError, or -- only with a default port that is not
+   popped, on a hint that carries its own non-zero port -- TypeError *)
+Lemma i2p_outcomes pops dflt hint :
+  endpoint_or_invalid (i2p_hint_to_endpoint pops dflt hint) \/
+  (pops = false /\ (exists d, dflt = Some d) /\ i2p_hint_to_endpoint pops dflt hint = Exc "TypeError").
 Proof.
-  unfold endpoint_or_invalid. destruct kd; cbn [hint_to_endpoint].
-  - unfold tcp_hint_to_endpoint.
+  unfold endpoint_or_invalid, i2p_hint_to_endpoint.
+  destruct (re_apply I2P_HINT_RE I2P_HINT_RE_method hint) as [c|] eqn:E; [|left; right; reflexivity].
+  assert (Hpn : exists pn, match group 3 c with
+                           | None | Some [] => Ok None
+                           | Some ds => match py_int ds with Exc e => Exc e | Ok port => Ok (Some port) end
+                           end = Ok pn).
+  { destruct (group 3 c) as [ds|] eqn:G; [|eauto]. destruct ds as [|d ds']; [eauto|].
+    destruct (i2p_port hint c _ E G) as [v Hv]. rewrite Hv. eauto. }
+  destruct Hpn as [pn ->].
+  destruct pops; [left; left; eauto|].
+  destruct dflt as [d|]; [|left; left; eauto].
+  destruct (match pn with None => true | Some v => v =? 0 end); [left; left; eauto|].
+  right. split; [reflexivity|]. split; [eauto|reflexivity].
+Qed.
+
+(* the repaired form (733f931): whenever the hint is an I2P hint the handler builds an endpoint, for every default-port
+   configuration, and the port it uses is the hint's own non-zero port, else the handler's default (None without one) *)
+Theorem i2p_port_choice : forall dflt hint,
+  i2p_hint_to_endpoint true dflt hint = Exc "InvalidHintError" \/
+  exists host pn, i2p_hint_to_endpoint true dflt hint = Ok (EpI2p host pn) /\ (pn = dflt \/ exists v, pn = Some v /\ v <> 0).
+Proof.
+  intros dflt hint. unfold i2p_hint_to_endpoint.
+  destruct (re_apply I2P_HINT_RE I2P_HINT_RE_method hint) as [c|] eqn:E; [|left; reflexivity]. right.
+  assert (Hpn : exists pn, match group 3 c with
+                           | None | Some [] => Ok None
+                           | Some ds => match py_int ds with Exc e => Exc e | Ok port => Ok (Some port) end
+                           end = Ok pn).
+  { destruct (group 3 c) as [ds|] eqn:G; [|eauto]. destruct ds as [|d ds']; [eauto|].
+    destruct (i2p_port hint c _ E G) as [v Hv]. rewrite Hv. eauto. }
+  destruct Hpn as [pn ->].
+  destruct pn as [v|]; [|eexists; eexists; split; [reflexivity|left; reflexivity]].
+  destruct (Z.eqb_spec v 0) as [->|Hv]; eexists; eexists; (split; [reflexivity|]); [left; reflexivity|].
+  right. exists v. split; [reflexivity|exact Hv].
+Qed.
+
+Lemma handler_total pops nonpublic kd hint : handler_ok pops kd ->
+  endpoint_or_invalid (hint_to_endpoint_gen pops nonpublic kd hint).
+Proof.
+  intros Hok. destruct kd as [| |dflt|f]; cbn [hint_to_endpoint_gen].
+  - unfold endpoint_or_invalid, tcp_hint_to_endpoint.
     destruct (re_apply NEW_STYLE_HINT_RE NEW_STYLE_HINT_RE_method hint) as [c|] eqn:E; [|right; reflexivity].
     destruct (new_port hint c E) as [v Hv]. rewrite Hv. left. eauto.
-  - unfold tor_hint_to_endpoint.
+  - unfold endpoint_or_invalid, tor_hint_to_endpoint.
     destruct (re_apply TOR_HINT_RE TOR_HINT_RE_method hint) as [c|] eqn:E; [|right; reflexivity].
     destruct (tor_port hint c E) as [v Hv]. rewrite Hv.
     destruct (nonpublic (group_or_nil 1 c)); [right; reflexivity | left; eauto].
-  - unfold i2p_hint_to_endpoint.
-    destruct (re_apply I2P_HINT_RE I2P_HINT_RE_method hint) as [c|] eqn:E; [|right; reflexivity].
-    destruct (group 3 c) as [ds|] eqn:G; [|left; eauto].
-    destruct ds as [|d ds']; [left; eauto|].
-    destruct (i2p_port hint c _ E G) as [v Hv]. rewrite Hv. left. eauto.
+  - destruct (i2p_outcomes pops dflt hint) as [H|(Hp & [d ->] & _)]; [exact H|].
+    cbn [handler_ok] in Hok. congruence.
+  - apply Hok.
 Qed.
 
-Theorem hint_total : forall handlers nonpublic loc, endpoint_or_invalid (get_endpoint handlers nonpublic loc).
+Lemma lookup_handler_in ty hs kd : lookup_handler ty hs = Some kd -> exists n, In (n, kd) hs.
 Proof.
-  intros handlers nonpublic loc. unfold get_endpoint.
+  induction hs as [|[n k] hs IH]; cbn [lookup_handler]; intros H; [discriminate|].
+  destruct (list_eqb ty n).
+  - inversion H; subst. exists n. left. reflexivity.
+  - destruct (IH H) as [n' Hn]. exists n'. right. exact Hn.
+Qed.
+
+Theorem hint_total_gen : forall pops handlers nonpublic loc,
+  Forall (fun h => handler_ok pops (snd h)) handlers ->
+  endpoint_or_invalid (get_endpoint_gen pops handlers nonpublic loc).
+Proof.
+  intros pops handlers nonpublic loc HF. unfold get_endpoint_gen.
   destruct (convert_legacy_total loc) as [h Hh]. rewrite Hh.
   destruct (negb (zmem HINT_TYPE_SEP h)); [right; reflexivity|].
-  destruct (lookup_handler (take_until HINT_TYPE_SEP h) handlers) as [kd|]; [|right; reflexivity].
-  apply handler_total.
+  destruct (lookup_handler (take_until HINT_TYPE_SEP h) handlers) as [kd|] eqn:L; [|right; reflexivity].
+  apply handler_total. apply lookup_handler_in in L as [n Hn].
+  rewrite Forall_forall in HF. apply (HF (n, kd) Hn).
+Qed.
+
+Theorem hint_total : forall handlers nonpublic loc,
+  Forall (fun h => handler_ok I2P_POPS_PORT (snd h)) handlers ->
+  endpoint_or_invalid (get_endpoint handlers nonpublic loc).
+Proof. intros. apply hint_total_gen. assumption. Qed.
+
+(* for ALL handler sets (any plugin behaviour, any i2p configuration): the dispatch itself -- legacy conversion, the
+   colon test, the lookup -- never raises; an exception other than InvalidHintError is the one the handler
+   registered for the hint's type raised on that very hint *)
+Theorem hint_exception_origin : forall pops handlers nonpublic loc e,
+  get_endpoint_gen pops handlers nonpublic loc = Exc e ->
+  e = "InvalidHintError"%string \/
+  exists hint kd, convert_legacy_hint loc = Ok hint /\
+                  lookup_handler (take_until HINT_TYPE_SEP hint) handlers = Some kd /\
+                  hint_to_endpoint_gen pops nonpublic kd hint = Exc e.
+Proof.
+  intros pops handlers nonpublic loc e. unfold get_endpoint_gen.
+  destruct (convert_legacy_total loc) as [h Hh]. rewrite Hh.
+  destruct (negb (zmem HINT_TYPE_SEP h)); [intros H; inversion H; auto|].
+  destruct (lookup_handler (take_until HINT_TYPE_SEP h) handlers) as [kd|] eqn:L; [|intros H; inversion H; auto].
+  intros H. right. exists h, kd. auto.
+Qed.
+
+(* ... and of foolscap's own handlers only i2p-with-an-unpopped-default-port can do that, with TypeError *)
+Theorem builtin_exceptions : forall pops nonpublic kd hint e,
+  (match kd with KPlugin _ => False | _ => True end) ->
+  hint_to_endpoint_gen pops nonpublic kd hint = Exc e ->
+  e = "InvalidHintError"%string \/ (e = "TypeError"%string /\ pops = false /\ exists d, kd = KI2p (Some d)).
+Proof.
+  intros pops nonpublic kd hint e Hk H.
+  destruct kd as [| |dflt|f]; [| | |contradiction].
+  - destruct (handler_total pops nonpublic KTcp hint I) as [[ep He]|He]; rewrite He in H; [discriminate|]. inversion H; auto.
+  - destruct (handler_total pops nonpublic KTor hint I) as [[ep He]|He]; rewrite He in H; [discriminate|]. inversion H; auto.
+  - cbn [hint_to_endpoint_gen] in H.
+    destruct (i2p_outcomes pops dflt hint) as [[[ep He]|He]|(Hp & [d ->] & He)]; rewrite He in H; try discriminate;
+      inversion H; subst; auto. right. split; [reflexivity|]. split; [reflexivity|]. eauto.
+Qed.
+
+(* the form before 733f931 was defective (kept as the model of the regression; corpus/C20/i2p-default-port.json is the
+   same witness on the real code): an i2p handler created with a default port answered "i2p:a:80" with TypeError *)
+Definition I2P_NAME : str := [105; 50; 112].
+Definition i2p_port_witness : str := [105; 50; 112; 58; 97; 58; 56; 48].       (* "i2p:a:80" *)
+Example unpopped_default_port_defect :
+  get_endpoint_gen false [(I2P_NAME, KI2p (Some 7777))] (fun _ => false) i2p_port_witness = Exc "TypeError" /\
+  get_endpoint_gen true [(I2P_NAME, KI2p (Some 7777))] (fun _ => false) i2p_port_witness = Ok (EpI2p [97] (Some 80)) /\
+  get_endpoint_gen true [(I2P_NAME, KI2p (Some 7777))] (fun _ => false) [105; 50; 112; 58; 97] = Ok (EpI2p [97] (Some 7777)).
+Proof. vm_compute. repeat split; reflexivity. Qed.
+
+(* the translated form is the repaired one: this is the line that breaks if the defect returns *)
+Lemma i2p_pops : I2P_POPS_PORT = true.
+Proof. reflexivity. Qed.
+
+(* THE FULL STATEMENT for foolscap's own handlers in every configuration; a third-party plugin must itself answer with an
+   endpoint or InvalidHintError *)
+Definition plugin_ok (kd : hkind) : Prop :=
+  match kd with KPlugin f => forall h, endpoint_or_invalid (f h) | _ => True end.
+
+Theorem hint_total_all : forall handlers nonpublic loc,
+  Forall (fun h => plugin_ok (snd h)) handlers ->
+  endpoint_or_invalid (get_endpoint handlers nonpublic loc).
+Proof.
+  intros handlers nonpublic loc HF. apply hint_total. eapply Forall_impl; [|exact HF].
+  intros [n kd] H. cbn [snd] in *. destruct kd as [| |[d|]|f]; cbn [handler_ok plugin_ok] in *; [exact I | exact I | exact i2p_pops | exact I | exact H].
+Qed.
+
+(* non-vacuity of handler_ok: the six handler sets of the correspondence that have no i2p default port *)
+Example handler_ok_example :
+  Forall (fun h => handler_ok I2P_POPS_PORT (snd h))
+         [([116; 99; 112], KTcp); ([116; 111; 114], KTor); (I2P_NAME, KI2p None);
+          ([120], KPlugin (fun h => match h with [] => invalid | _ => Ok (EpTcp h 1) end))].
+Proof.
+  constructor; [exact I|]. constructor; [exact I|]. constructor; [exact I|]. constructor; [|constructor].
+  cbn [snd handler_ok]. intros h0. unfold endpoint_or_invalid. destruct h0; [right; reflexivity | left; eauto].
 Qed.
 
 (* ports handed to an endpoint constructor are below 100000 *)
@@ -531,7 +666,7 @@ Proof.
 Qed.
 
 Example hint_examples :
-  map (fun s => ep_code (get_endpoint [([116; 99; 112], KTcp); ([105; 50; 112], KI2p)] (fun _ => false) s))
+  map (fun s => ep_code (get_endpoint [([116; 99; 112], KTcp); ([105; 50; 112], KI2p None)] (fun _ => false) s))
       [[97; 58; 48; 56; 48]; [116; 99; 112; 58; 91; 58; 58; 49; 93; 58; 55]; [105; 50; 112; 58; 97]; [120]; [97; 58; 49; 50; 51; 52; 53; 54]]
   = [[[1]; [97]; [80]]; [[1]; [58; 58; 49]; [7]]; [[3]; [97]; []]; [[0]]; [[0]]].
 Proof. vm_compute. reflexivity. Qed.
@@ -545,3 +680,382 @@ Proof.
   unfold sturdyref_distinguishers, sturdyref_copied_fields. intros f H. cbn [In] in *.
   repeat match goal with H : _ \/ _ |- _ => destruct H as [<-|H] end; tauto.
 Qed.
+
+(* ================================================================== 7. exact growth of FURL matching *)
+Definition AT_FREE : cset := CS true [(64, 64)].
+Definition noat (t : list Z) : Prop := forallb (in_cset AT_FREE) t = true.
+
+Lemma noat_tail x t : noat (x :: t) -> noat t.
+Proof. unfold noat. cbn [forallb]. intros H. apply andb_true_iff in H. tauto. Qed.
+
+Lemma noat_pb k : noat (pb_repeat k).
+Proof.
+  unfold noat, pb_repeat. induction k as [|k IH]; [reflexivity|].
+  cbn [repeat List.concat]. rewrite forallb_app, IH. vm_compute. reflexivity.
+Qed.
+
+Lemma len_app a b : len (a ++ b) = (len a + len b)%N.
+Proof. unfold len. rewrite app_length. lia. Qed.
+
+Lemma len_pb k : len (pb_repeat k) = (len ENC_PREFIX * N.of_nat k)%N.
+Proof.
+  unfold pb_repeat. induction k as [|k IH]; [cbn; lia|].
+  cbn [repeat List.concat]. rewrite len_app, IH. lia.
+Qed.
+
+(* a successful attempt needs an '@' in the subject *)
+Lemma furl_attempt_at s1 res n : m_top (p_body AUTH_STURDYREF_RE) s1 = (Some res, n) -> In 64 s1.
+Proof.
+  unfold AUTH_STURDYREF_RE. cbn [p_body]. rewrite m_top_unfold. cbn [m]. intros H.
+  chr_inv H. chr_inv H. chr_inv H. chr_inv H. chr_inv H.
+  apply star_inv in H as (u1 & s' & -> & Hu1 & Hlo1 & _ & n2 & H). cbn beta in H.
+  chr_inv H.
+  match goal with E : in_cset (CS false [(64, 64)]) ?z = true |- _ =>
+    rewrite in_cset_lit_eqb in E; apply Z.eqb_eq in E; subst z end.
+  cbn [In]. do 5 right. apply in_or_app. right. left. reflexivity.
+Qed.
+
+Lemma furl_attempt_none t : noat t -> fst (m_top (p_body AUTH_STURDYREF_RE) t) = None.
+Proof.
+  intros H. destruct (m_top (p_body AUTH_STURDYREF_RE) t) as [[res|] n] eqn:E; [|reflexivity].
+  exfalso. apply furl_attempt_at in E. apply (forallb_notin 64 t H). exact E.
+Qed.
+
+(* ... and an attempt that starts at a scheme occurrence walks to the end of the '@'-free text behind it *)
+Lemma furl_attempt_cost_ge t : noat t -> (len t <= cost (m_top (p_body AUTH_STURDYREF_RE) (ENC_PREFIX ++ t)))%N.
+Proof.
+  intros H. unfold AUTH_STURDYREF_RE. cbn [p_body ENC_PREFIX app]. rewrite m_top_unfold. cbn [m].
+  rewrite !in_cset_lit, !cost_tick.
+  match goal with |- context [star ?cs ?lo None t ?c ?k] => pose proof (star_cost_ge cs k t lo c H) end.
+  lia.
+Qed.
+
+Lemma search_drop r x s : fst (m_top r (x :: s)) = None -> (cost (search_from r s) <= cost (search_from r (x :: s)))%N.
+Proof. intros H. rewrite (search_skip r x s H). lia. Qed.
+
+(* THE LOWER BOUND: on "pb://" repeated k times the search takes at least (5/2) k (k-1) steps *)
+Theorem furl_search_lower : forall k,
+  (5 * N.of_nat k * N.of_nat k <= 2 * re_steps AUTH_STURDYREF_RE AUTH_STURDYREF_RE_method (pb_repeat k) + 5 * N.of_nat k)%N.
+Proof.
+  intros k.
+  change (re_steps AUTH_STURDYREF_RE AUTH_STURDYREF_RE_method (pb_repeat k))
+    with (cost (search_from (p_body AUTH_STURDYREF_RE) (pb_repeat k))).
+  induction k as [|k IH]; [cbn; lia|].
+  pose proof (noat_pb (S k)) as Hn. pose proof (len_pb k) as HL.
+  change (pb_repeat (S k)) with (ENC_PREFIX ++ pb_repeat k) in *.
+  pose proof (furl_attempt_cost_ge (pb_repeat k) (noat_pb k)) as Hc.
+  cbn [ENC_PREFIX app] in *.
+  set (r := p_body AUTH_STURDYREF_RE) in *. set (t := pb_repeat k) in *.
+  rewrite (search_skip r _ _ (furl_attempt_none _ Hn)).
+  apply noat_tail in Hn. pose proof (search_drop r _ _ (furl_attempt_none _ Hn)) as D1.
+  apply noat_tail in Hn. pose proof (search_drop r _ _ (furl_attempt_none _ Hn)) as D2.
+  apply noat_tail in Hn. pose proof (search_drop r _ _ (furl_attempt_none _ Hn)) as D3.
+  apply noat_tail in Hn. pose proof (search_drop r _ _ (furl_attempt_none _ Hn)) as D4.
+  assert (E5 : len ENC_PREFIX = 5%N) by reflexivity. cbn [ENC_PREFIX] in E5. try rewrite E5 in HL. change (len ENC_PREFIX) with 5%N in HL.
+  rewrite Nat2N.inj_succ.
+  repeat match goal with H : context [cost ?x] |- _ => let v := fresh "v" in set (v := cost x) in *; clearbody v end.
+  repeat match goal with |- context [cost ?x] => let v := fresh "v" in set (v := cost x) in *; clearbody v end.
+  set (K := N.of_nat k) in *. clearbody K. clear -IH HL Hc D1 D2 D3 D4.
+  assert (E : (5 * N.succ K * N.succ K = 5 * K * K + 10 * K + 5)%N) by lia.
+  rewrite E. lia.
+Qed.
+
+(* hence NO linear bound holds, whatever the constant (full-strength statement refuted for all K) *)
+Theorem furl_linear_refuted : forall K : N, exists s,
+  (K * (N.of_nat (List.length s) + 1) < re_steps AUTH_STURDYREF_RE AUTH_STURDYREF_RE_method s)%N.
+Proof.
+  intros K. exists (pb_repeat (N.to_nat (2 * K + 4))).
+  pose proof (furl_search_lower (N.to_nat (2 * K + 4))) as H.
+  pose proof (len_pb (N.to_nat (2 * K + 4))) as HL. unfold len in HL.
+  change (N.of_nat (List.length ENC_PREFIX)) with 5%N in HL.
+  rewrite HL. rewrite N2Nat.id in *. nia.
+Qed.
+
+(* --- the anchored alternative (`^pb://...` or .match()) IS linear, with the same constant *)
+Lemma furl_K_ok : attempt_bound (p_body AUTH_STURDYREF_RE) = Some furl_K.
+Proof. vm_compute. reflexivity. Qed.
+
+Theorem furl_anchored_linear : forall meth s,
+  (re_steps (anchored AUTH_STURDYREF_RE) meth s <= furl_K * (N.of_nat (List.length s) + 1))%N.
+Proof.
+  intros meth s. apply linear_bound_sound. unfold linear_bound, anchored. cbn [p_anch p_body].
+  destruct meth; exact furl_K_ok.
+Qed.
+
+Theorem furl_match_linear : forall s,
+  (re_steps AUTH_STURDYREF_RE MMatch s <= furl_K * (N.of_nat (List.length s) + 1))%N.
+Proof. intros s. apply linear_bound_sound. unfold linear_bound. exact furl_K_ok. Qed.
+
+(* ... but it accepts fewer strings (why the finding is not simply repaired): junk before the scheme *)
+Example anchoring_changes_language :
+  let s := [120; 120] ++ ENC_PREFIX ++ [97] ++ ENC_AT ++ [104] ++ ENC_SLASH ++ [110] in
+  (exists c, re_apply AUTH_STURDYREF_RE AUTH_STURDYREF_RE_method s = Some c) /\
+  re_apply (anchored AUTH_STURDYREF_RE) AUTH_STURDYREF_RE_method s = None /\ re_apply AUTH_STURDYREF_RE MMatch s = None.
+Proof. vm_compute. split; [eexists; reflexivity | split; reflexivity]. Qed.
+
+(* --- where the quadratic cost comes from: only attempts that start at a scheme occurrence are expensive *)
+Lemma furl_attempt_cheap t : prefixb ENC_PREFIX t = false -> (cost (m_top (p_body AUTH_STURDYREF_RE) t) <= 5)%N.
+Proof.
+  unfold AUTH_STURDYREF_RE. cbn [p_body ENC_PREFIX]. rewrite m_top_unfold. cbn [m]. revert t.
+  assert (F : cost fail1 = 1%N) by reflexivity.
+  intros t H.
+  repeat (destruct t as [|? t]; [rewrite ?cost_tick, ?F; lia|];
+          cbn [prefixb ENC_PREFIX] in H; rewrite in_cset_lit_eqb;
+          match goal with |- context [if (?x =? ?a) then _ else _] => destruct (x =? a) end;
+          cbn [andb] in H; [|rewrite ?cost_tick, ?F; lia]).
+  discriminate.
+Qed.
+
+Theorem furl_search_occ : forall s,
+  (cost (search_from (p_body AUTH_STURDYREF_RE) s)
+   <= 6 * (len s + 1) + occ ENC_PREFIX s * (furl_K * (len s + 1)))%N.
+Proof.
+  pose proof (attempt_bound_sound _ _ furl_K_ok) as HA.
+  induction s as [|x s IH].
+  - eapply N.le_trans; [apply search_nil_le|]. pose proof (furl_attempt_cheap [] eq_refl). rewrite len_nil. cbn [occ]. lia.
+  - eapply N.le_trans; [apply search_step_le|]. cbn [occ]. rewrite len_cons.
+    set (L := len s) in *. set (o := occ ENC_PREFIX s) in *.
+    assert (Hm : (furl_K * (L + 1) <= furl_K * (L + 1 + 1))%N) by (apply N.mul_le_mono_l; lia).
+    assert (Ho : (o * (furl_K * (L + 1)) <= o * (furl_K * (L + 1 + 1)))%N) by (apply N.mul_le_mono_l; exact Hm).
+    destruct (prefixb ENC_PREFIX (x :: s)) eqn:E.
+    + specialize (HA (x :: s)). rewrite len_cons in HA. fold L in HA.
+      replace ((1 + o) * (furl_K * (L + 1 + 1)))%N with (furl_K * (L + 1 + 1) + o * (furl_K * (L + 1 + 1)))%N by ring.
+      lia.
+    + pose proof (furl_attempt_cheap _ E). replace ((0 + o))%N with o by lia. lia.
+Qed.
+
+Theorem furl_steps_by_occurrences : forall s,
+  (re_steps AUTH_STURDYREF_RE AUTH_STURDYREF_RE_method s
+   <= 6 * (N.of_nat (List.length s) + 1) + occ ENC_PREFIX s * (furl_K * (N.of_nat (List.length s) + 1)))%N.
+Proof. exact furl_search_occ. Qed.
+
+(* a FURL in which the scheme occurs at most once -- every FURL a Tub prints -- is matched in linear time *)
+Corollary furl_single_scheme_linear : forall s, (occ ENC_PREFIX s <= 1)%N ->
+  (re_steps AUTH_STURDYREF_RE AUTH_STURDYREF_RE_method s <= (furl_K + 6) * (N.of_nat (List.length s) + 1))%N.
+Proof.
+  intros s H. pose proof (furl_steps_by_occurrences s) as B.
+  set (X := (furl_K * (N.of_nat (List.length s) + 1))%N) in *.
+  assert (occ ENC_PREFIX s * X <= 1 * X)%N by (apply N.mul_le_mono_r; exact H).
+  unfold X in *. lia.
+Qed.
+
+Example furl_single_scheme_example :
+  let s := ENC_PREFIX ++ [97; 98; 50] ++ ENC_AT ++ [104; 58; 49] ++ ENC_SLASH ++ [110] in
+  occ ENC_PREFIX s = 1%N /\ occ ENC_PREFIX (pb_repeat 7) = 7%N.
+Proof. vm_compute. split; reflexivity. Qed.
+
+
+(* ================================================================== 8. FURLs given as bytes *)
+Lemma utf8_dec_enc1 c r : scalarb c = true -> utf8_dec (enc1 c ++ r) = option_map (cons c) (utf8_dec r).
+Proof.
+  unfold scalarb. intros H. apply andb_true_iff in H as [H Hs]. apply andb_true_iff in H as [H0 H1].
+  apply Z.leb_le in H0. apply Z.ltb_lt in H1. apply negb_true_iff in Hs.
+  unfold enc1.
+  destruct (Z.ltb_spec c 128) as [A|A].
+  { cbn [app utf8_dec]. replace ((0 <=? c) && (c <? 128)) with true; [reflexivity|].
+    symmetry. apply andb_true_iff. split; [apply Z.leb_le | apply Z.ltb_lt]; lia. }
+  destruct (Z.ltb_spec c 2048) as [B|B].
+  { cbn [app utf8_dec].
+    assert (Hq : 2 <= c / 64 < 32) by (split; [apply Z.div_le_lower_bound | apply Z.div_lt_upper_bound]; lia).
+    pose proof (Z.mod_pos_bound c 64 ltac:(lia)) as Hm. pose proof (Z.div_mod c 64 ltac:(lia)) as Hd.
+    replace ((0 <=? 192 + c / 64) && (192 + c / 64 <? 128)) with false
+      by (symmetry; apply andb_false_iff; right; apply Z.ltb_ge; lia).
+    replace ((194 <=? 192 + c / 64) && (192 + c / 64 <? 224)) with true
+      by (symmetry; apply andb_true_iff; split; [apply Z.leb_le | apply Z.ltb_lt]; lia).
+    replace (is_cont (128 + c mod 64)) with true
+      by (symmetry; unfold is_cont; apply andb_true_iff; split; [apply Z.leb_le | apply Z.ltb_lt]; lia).
+    replace ((192 + c / 64 - 192) * 64 + (128 + c mod 64 - 128)) with c by lia. reflexivity. }
+  destruct (Z.ltb_spec c 65536) as [C|C].
+  { cbn [app utf8_dec].
+    assert (Hq : 0 <= c / 4096 < 16) by (split; [apply Z.div_le_lower_bound | apply Z.div_lt_upper_bound]; lia).
+    pose proof (Z.mod_pos_bound c 64 ltac:(lia)) as Hm. pose proof (Z.div_mod c 64 ltac:(lia)) as Hd.
+    pose proof (Z.mod_pos_bound (c / 64) 64 ltac:(lia)) as Hm2. pose proof (Z.div_mod (c / 64) 64 ltac:(lia)) as Hd2.
+    assert (Hdd : c / 64 / 64 = c / 4096) by (rewrite Z.div_div by lia; reflexivity).
+    rewrite Hdd in Hd2.
+    replace ((0 <=? 224 + c / 4096) && (224 + c / 4096 <? 128)) with false
+      by (symmetry; apply andb_false_iff; right; apply Z.ltb_ge; lia).
+    replace ((194 <=? 224 + c / 4096) && (224 + c / 4096 <? 224)) with false
+      by (symmetry; apply andb_false_iff; right; apply Z.ltb_ge; lia).
+    replace ((224 <=? 224 + c / 4096) && (224 + c / 4096 <? 240)) with true
+      by (symmetry; apply andb_true_iff; split; [apply Z.leb_le | apply Z.ltb_lt]; lia).
+    replace (is_cont (128 + c / 64 mod 64)) with true
+      by (symmetry; unfold is_cont; apply andb_true_iff; split; [apply Z.leb_le | apply Z.ltb_lt]; lia).
+    replace (is_cont (128 + c mod 64)) with true
+      by (symmetry; unfold is_cont; apply andb_true_iff; split; [apply Z.leb_le | apply Z.ltb_lt]; lia).
+    assert (S3 : second3 (224 + c / 4096) (128 + c / 64 mod 64) = true).
+    { unfold second3. destruct (Z.eqb_spec (224 + c / 4096) 224) as [E|E].
+      - apply Z.leb_le. assert (c / 4096 = 0) by lia. lia.
+      - destruct (Z.eqb_spec (224 + c / 4096) 237) as [E2|E2]; [|reflexivity].
+        apply Z.ltb_lt. assert (c / 4096 = 13) by lia.
+        (* c in [0xD000, 0xE000) and not a surrogate: c < 0xD800 *)
+        apply andb_false_iff in Hs. destruct Hs as [Hs|Hs]; [apply Z.leb_gt in Hs | apply Z.ltb_ge in Hs]; lia. }
+    rewrite S3. cbn [andb].
+    replace ((224 + c / 4096 - 224) * 4096 + (128 + c / 64 mod 64 - 128) * 64 + (128 + c mod 64 - 128)) with c by lia.
+    reflexivity. }
+  { cbn [app utf8_dec].
+    assert (Hq : 0 <= c / 262144 < 5) by (split; [apply Z.div_le_lower_bound | apply Z.div_lt_upper_bound]; lia).
+    pose proof (Z.mod_pos_bound c 64 ltac:(lia)) as Hm. pose proof (Z.div_mod c 64 ltac:(lia)) as Hd.
+    pose proof (Z.mod_pos_bound (c / 64) 64 ltac:(lia)) as Hm2. pose proof (Z.div_mod (c / 64) 64 ltac:(lia)) as Hd2.
+    assert (Hdd : c / 64 / 64 = c / 4096) by (rewrite Z.div_div by lia; reflexivity).
+    rewrite Hdd in Hd2.
+    pose proof (Z.mod_pos_bound (c / 4096) 64 ltac:(lia)) as Hm3. pose proof (Z.div_mod (c / 4096) 64 ltac:(lia)) as Hd3.
+    assert (Hdd3 : c / 4096 / 64 = c / 262144) by (rewrite Z.div_div by lia; reflexivity).
+    rewrite Hdd3 in Hd3.
+    replace ((0 <=? 240 + c / 262144) && (240 + c / 262144 <? 128)) with false
+      by (symmetry; apply andb_false_iff; right; apply Z.ltb_ge; lia).
+    replace ((194 <=? 240 + c / 262144) && (240 + c / 262144 <? 224)) with false
+      by (symmetry; apply andb_false_iff; right; apply Z.ltb_ge; lia).
+    replace ((224 <=? 240 + c / 262144) && (240 + c / 262144 <? 240)) with false
+      by (symmetry; apply andb_false_iff; right; apply Z.ltb_ge; lia).
+    replace ((240 <=? 240 + c / 262144) && (240 + c / 262144 <? 245)) with true
+      by (symmetry; apply andb_true_iff; split; [apply Z.leb_le | apply Z.ltb_lt]; lia).
+    replace (is_cont (128 + c / 4096 mod 64)) with true
+      by (symmetry; unfold is_cont; apply andb_true_iff; split; [apply Z.leb_le | apply Z.ltb_lt]; lia).
+    replace (is_cont (128 + c / 64 mod 64)) with true
+      by (symmetry; unfold is_cont; apply andb_true_iff; split; [apply Z.leb_le | apply Z.ltb_lt]; lia).
+    replace (is_cont (128 + c mod 64)) with true
+      by (symmetry; unfold is_cont; apply andb_true_iff; split; [apply Z.leb_le | apply Z.ltb_lt]; lia).
+    assert (S4 : second4 (240 + c / 262144) (128 + c / 4096 mod 64) = true).
+    { unfold second4. destruct (Z.eqb_spec (240 + c / 262144) 240) as [E|E].
+      - apply Z.leb_le. assert (c / 262144 = 0) by lia. lia.
+      - destruct (Z.eqb_spec (240 + c / 262144) 244) as [E2|E2]; [|reflexivity].
+        apply Z.ltb_lt. assert (c / 262144 = 4) by lia. lia. }
+    rewrite S4. cbn [andb].
+    replace ((240 + c / 262144 - 240) * 262144 + (128 + c / 4096 mod 64 - 128) * 4096 + (128 + c / 64 mod 64 - 128) * 64 + (128 + c mod 64 - 128)) with c by lia.
+    reflexivity. }
+Qed.
+
+(* decoding the UTF-8 encoding of a str gives the str back: a bytes FURL is the str FURL *)
+Theorem utf8_dec_utf8 : forall s, forallb scalarb s = true -> utf8_dec (utf8 s) = Some s.
+Proof.
+  induction s as [|c s IH]; cbn [forallb]; intros H; [reflexivity|].
+  apply andb_true_iff in H as [Hc Hs]. unfold utf8. cbn [flat_map]. fold (utf8 s).
+  rewrite utf8_dec_enc1 by exact Hc. rewrite IH by exact Hs. reflexivity.
+Qed.
+
+Theorem decode_bytes_is_decode_str : forall s, forallb scalarb s = true -> decode_furl_bytes (utf8 s) = decode_furl s.
+Proof. intros s H. unfold decode_furl_bytes. rewrite utf8_dec_utf8 by exact H. reflexivity. Qed.
+
+Theorem decode_bytes_total : forall b,
+  (exists t hs n, decode_furl_bytes b = Ok (t, hs, n)) \/ decode_furl_bytes b = Exc "BadFURLError" \/
+  decode_furl_bytes b = Exc "ValueError" \/ decode_furl_bytes b = Exc "UnicodeDecodeError".
+Proof.
+  intros b. unfold decode_furl_bytes. destruct (utf8_dec b) as [s|]; [|auto].
+  destruct (decode_total s) as [H|[H|H]]; auto.
+Qed.
+
+(* non-vacuity: a non-ASCII FURL as bytes; ill-formed bytes (overlong, surrogate, truncated, 0xFF) *)
+Example decode_bytes_examples :
+  decode_furl_bytes (utf8 (ENC_PREFIX ++ [97] ++ ENC_AT ++ [104] ++ ENC_SLASH ++ [233; 8364; 128512]))
+    = Ok ([97], [[104]], [233; 8364; 128512]) /\
+  map utf8_dec [[192; 175]; [237; 160; 128]; [226; 130]; [255]; [244; 144; 128; 128]; [224; 159; 191]] = [None; None; None; None; None; None].
+Proof. vm_compute. split; reflexivity. Qed.
+
+(* ================================================================== 9. ordering of SturdyRefs *)
+Lemma list_eqb_false_sym a b : list_eqb a b = false -> list_eqb b a = false.
+Proof.
+  intros H. destruct (list_eqb b a) eqn:E; [|reflexivity]. apply list_eqb_eq in E. subst.
+  rewrite (proj2 (list_eqb_eq a a) eq_refl) in H. discriminate.
+Qed.
+
+Lemma str_ltb_irrefl a : str_ltb a a = false.
+Proof. induction a as [|x a IH]; [reflexivity|]. cbn [str_ltb]. rewrite Z.ltb_irrefl, Z.eqb_refl. exact IH. Qed.
+
+Lemma str_ltb_trans : forall a b c, str_ltb a b = true -> str_ltb b c = true -> str_ltb a c = true.
+Proof.
+  induction a as [|x a IH]; intros b c Hab Hbc.
+  - destruct b; [discriminate|]. destruct c; [discriminate|reflexivity].
+  - destruct b as [|y b]; [discriminate|]. destruct c as [|z c]; [discriminate|].
+    cbn [str_ltb] in *.
+    destruct (Z.ltb_spec x y), (Z.ltb_spec y z), (Z.ltb_spec x z); try reflexivity; try lia;
+      destruct (Z.eqb_spec x y), (Z.eqb_spec y z), (Z.eqb_spec x z); try discriminate; try lia.
+    eapply IH; eauto.
+Qed.
+
+Lemma str_trichotomy : forall a b, (str_ltb a b = true /\ list_eqb a b = false /\ str_ltb b a = false) \/
+                                   (str_ltb a b = false /\ a = b /\ str_ltb b a = false) \/
+                                   (str_ltb a b = false /\ list_eqb a b = false /\ str_ltb b a = true).
+Proof.
+  induction a as [|x a IH]; intros [|y b].
+  - right; left. auto.
+  - left. auto.
+  - right; right. auto.
+  - cbn [str_ltb list_eqb]. destruct (Z.ltb_spec x y), (Z.ltb_spec y x); try lia.
+    + left. try rewrite (proj2 (Z.eqb_neq x y)) by lia. try rewrite (proj2 (Z.eqb_neq y x)) by lia. auto.
+    + right; right. try rewrite (proj2 (Z.eqb_neq x y)) by lia. try rewrite (proj2 (Z.eqb_neq y x)) by lia. auto.
+    + assert (x = y) by lia. subst y. rewrite Z.eqb_refl. cbn [andb].
+      destruct (IH b) as [(A & B & C)|[(A & B & C)|(A & B & C)]].
+      * left. auto.
+      * right; left. subst. auto.
+      * right; right. auto.
+Qed.
+
+(* references that have a tub id and a name (everything built from a FURL): __lt__ never raises and is a strict total
+   order that agrees with __eq__: exactly one of a < b, a == b, b < a *)
+Definition full (a : sref) : Prop := (exists t, sr_tub a = Some t) /\ (exists n, sr_name a = Some n).
+
+Theorem sturdy_lt_trichotomy : forall a b, full a -> full b ->
+  exists x y, sref_ltb a b = Ok x /\ sref_ltb b a = Ok y /\
+    ((x = true /\ sref_eqb a b = false /\ y = false) \/ (x = false /\ sref_eqb a b = true /\ y = false) \/
+     (x = false /\ sref_eqb a b = false /\ y = true)).
+Proof.
+  intros a b [[ta Ha] [na Hna]] [[tb Hb] [nb Hnb]].
+  unfold sref_ltb, sref_eqb, sturdyref_distinguishers. cbn [key_ltb forallb field_eqb field_val].
+  rewrite Ha, Hb, Hna, Hnb. cbn [opt_str_eqb]. rewrite !andb_true_r.
+  destruct (str_trichotomy ta tb) as [(A & B & C)|[(A & B & C)|(A & B & C)]].
+  - rewrite B. rewrite (list_eqb_false_sym _ _ B). eexists; eexists; split; [reflexivity|split; [reflexivity|]]. left. cbn. auto.
+  - subst tb. rewrite (proj2 (list_eqb_eq ta ta) eq_refl). cbn [andb].
+    destruct (str_trichotomy na nb) as [(A' & B' & C')|[(A' & B' & C')|(A' & B' & C')]].
+    + rewrite B', (list_eqb_false_sym _ _ B'). eexists; eexists; split; [reflexivity|split; [reflexivity|]]. left. auto.
+    + subst nb. rewrite (proj2 (list_eqb_eq na na) eq_refl). eexists; eexists; split; [reflexivity|split; [reflexivity|]]. right; left. auto.
+    + rewrite B', (list_eqb_false_sym _ _ B'). eexists; eexists; split; [reflexivity|split; [reflexivity|]]. right; right. auto.
+  - rewrite B. rewrite (list_eqb_false_sym _ _ B). eexists; eexists; split; [reflexivity|split; [reflexivity|]]. right; right. cbn. auto.
+Qed.
+
+(* a reference without a tub id (SturdyRef() with no URL, or a received copy whose state lacks it) cannot be ordered
+   against a complete one: Python's tuple comparison reaches `None < str` *)
+Example sturdy_lt_incomplete :
+  let a := {| sr_tub := None; sr_hints := []; sr_name := None; sr_url := None |} in
+  let b := {| sr_tub := Some [97]; sr_hints := []; sr_name := Some [110]; sr_url := None |} in
+  sref_ltb a b = Exc "TypeError" /\ sref_ltb a a = Ok false /\ sref_ltb b b = Ok false.
+Proof. vm_compute. repeat split; reflexivity. Qed.
+
+(* ================================================================== 10. which error for which input *)
+(* decode_furl has TWO error classes (BadFURLError is not a ValueError): ValueError("unknown FURL prefix") exactly for the
+   strings in which the pattern finds no FURL at all, BadFURLError exactly for those in which it finds one whose tub id is
+   not base32 or one of whose hints is empty *)
+Theorem decode_error_classes : forall s,
+  (decode_furl s = Exc "ValueError" <-> re_apply AUTH_STURDYREF_RE AUTH_STURDYREF_RE_method s = None) /\
+  (decode_furl s = Exc "BadFURLError" <->
+   exists c, re_apply AUTH_STURDYREF_RE AUTH_STURDYREF_RE_method s = Some c /\
+     (is_base32 (firstn TUBID_CUT (group_or_nil 1 c)) = false \/
+      existsb str_is_nil (let hs := split_on HINT_SEP (group_or_nil 2 c) in match hs with [[]] => [] | _ => hs end) = true)).
+Proof.
+  intros s. unfold decode_furl.
+  destruct (re_apply AUTH_STURDYREF_RE AUTH_STURDYREF_RE_method s) as [c|].
+  - destruct (is_base32 (firstn TUBID_CUT (group_or_nil 1 c))) eqn:B; cbn [negb].
+    + match goal with |- context [existsb str_is_nil ?h] => destruct (existsb str_is_nil h) eqn:X end.
+      * split; [split; intros H; discriminate|]. split; [intros _; exists c; auto|reflexivity].
+      * split; [split; intros H; discriminate|]. split; [intros H; discriminate|].
+        intros (c' & Hc & [H|H]); inversion Hc; subst c'; cbn zeta in *; congruence.
+    + split; [split; intros H; discriminate|]. split; [intros _; exists c; auto|reflexivity].
+  - split; [split; reflexivity|]. split; [intros H; discriminate|]. intros (c & Hc & _). discriminate.
+Qed.
+
+(* "or raises the documented bad-FURL error" read strictly (BadFURLError only) is REFUTED: a string without the
+   scheme gets ValueError (the behaviour upstream tests: test_sturdyref asserts ValueError for 'pb://TUBID/name', and
+   Tub.getConnectionInfoForFURL catches (ValueError, BadFURLError)) *)
+Theorem decode_strict_refuted : exists s, decode_furl s = Exc "ValueError".
+Proof. exists [112; 98; 58; 47; 47; 97; 47; 110]. vm_compute. reflexivity. Qed.     (* "pb://a/n" *)
+
+(* ================================================================== 11. the connector theorems over the translated facts *)
+Theorem no_stall_translated : forall evs,
+  waiters (cstep connector_stored_before_connect CONNECTION_TIMEOUT
+             (crun connector_stored_before_connect CONNECTION_TIMEOUT evs) (Advance CONNECTION_TIMEOUT)) = [].
+Proof. intros evs. apply (no_stall CONNECTION_TIMEOUT evs). discriminate. Qed.
+
+Theorem attempt_starts_translated : forall evs t,
+  let s := crun connector_stored_before_connect CONNECTION_TIMEOUT evs in
+  ~ (exists dl, In (t, dl) (live s)) ->
+  In (next s) (started (cstep connector_stored_before_connect CONNECTION_TIMEOUT s (GetRef t true))).
+Proof. intros evs t s H. apply (attempt_starts CONNECTION_TIMEOUT evs t); [discriminate | exact H]. Qed.
